@@ -749,9 +749,11 @@ func runParse(h *hist, packets [][]byte, file string, off int64, failAt int, map
 		close(ch)
 	}()
 	n := 0
+	var kept []*gobinlog.Transaction
 	cls := catch(func() string {
 		pos, err := s.VerifParseEvents(ctx, ch, func(t *gobinlog.Transaction) error {
 			calls = append(calls, showTx(t))
+			kept = append(kept, t) // the documented usage: hand the transaction on and read it later
 			n++
 			if failAt >= 0 && n-1 == failAt {
 				if len(cancelOnFail) > 0 && cancelOnFail[0] {
@@ -771,6 +773,13 @@ func runParse(h *hist, packets [][]byte, file string, off int64, failAt int, map
 	<-done
 	if cls == "panic" {
 		cls = "crash@?"
+	}
+	// a transaction handed to the handler must read the same after the parse went on (no change moved into or out
+	// of it afterwards)
+	for i, t := range kept {
+		if i < len(calls) && showTx(t) != calls[i] {
+			calls[i] += "!changed-after-delivery:" + clip(showTx(t), 200)
+		}
 	}
 	return cls + "#" + strings.Join(calls, "&"), calls, m.calls
 }
